@@ -234,14 +234,24 @@ theorem tail_retry (c : Cfg) (ar aq : Nat) (s : S) (b : Base c ar aq s) (hrun : 
     (hurr : s.urr = false) (hur : s.upReset = false) (hexp : s.globalExpired = false)
     (h24 : s.reqSent = true → s.global = true) (hlc : liveCount s.streams = 0) (hrst : s.respStarted = false)
     (hpt : s.perTry = false) :
-    Inv c ar aq (reenter { s with setupRetry := false } .Retry) := by
-  have hre : reenter { s with setupRetry := false } .Retry =
-      { s with setupRetry := false, pass := 0, phase := .Retry, notify := false } := by
+    Inv c ar aq (reenter { s with up := some none, setupRetry := false } .Retry) := by
+  have hre : reenter { s with up := some none, setupRetry := false } .Retry =
+      { s with up := some none, setupRetry := false, pass := 0, phase := .Retry, notify := false } := by
     have hk : retryKeepsBudget = true := by decide
     simp [reenter, hpass, loopBudget, hk]
   rw [hre]
   obtain ⟨k1, k2, k4, k9, k10, k11, k12, k13, k14, k20, k21, k22, k31⟩ := b
-  refine ⟨?_, k1, k2, h3, k4, ?_, h6, ?_, ?_, k9, k10, k11, k12, ?_, k14, ?_, ?_, ?_, ?_, ?_, k20, k21, k22, ?_, ?_, ?_, ?_, ?_, ?_, ?_, ?_, k31, ?_, (fun hh => absurd hh (by simp [hcl]))⟩
+  -- the request given up for the retry is detached: no client stream is live any more, so none needs an owner
+  have hdead : allDead s.streams = true := allDead_of_counted s.streams (by simpa [K22, liveAreCounted] using k22 how) hlc
+  have h14 : K14 { s with up := some none, setupRetry := false, pass := 0, phase := .Retry, notify := false } := by
+    have h14s := (streamsOk_iff s).1 k14
+    refine (streamsOk_iff _).2 ⟨h14s.1, ?_, ?_⟩
+    · intro st hst hl
+      have hm : st ∈ s.streams := List.mem_of_getLast? hst
+      have := (List.all_eq_true.1 hdead) st hm
+      simp [hl] at this
+    · intro k hk; simp at hk
+  refine ⟨?_, k1, k2, h3, k4, ?_, h6, ?_, ?_, k9, k10, k11, k12, ?_, h14, ?_, ?_, ?_, ?_, ?_, k20, k21, k22, ?_, ?_, ?_, ?_, ?_, ?_, ?_, ?_, (fun _ => rfl), ?_, (fun hh => absurd hh (by simp [hcl]))⟩
   · simp [K0, hrun, hcl]
   · intro hh; simp [hpd] at hh
   · exact k7_intro rfl hdir
@@ -252,7 +262,7 @@ theorem tail_retry (c : Cfg) (ar aq : Nat) (s : S) (b : Base c ar aq s) (hrun : 
   · intro _ hh; simp [prePhase] at hh
   · intro _ _
     right
-    refine ⟨hup, hrs, ?_, ?_, ?_, ?_⟩
+    refine ⟨rfl, hrs, ?_, ?_, ?_, ?_⟩
     · intro hh; simp [hurr, hur, hdr] at hh
     · intro hh; simp [hexp] at hh
     · intro _ hh; left; exact h24 hh
@@ -261,7 +271,7 @@ theorem tail_retry (c : Cfg) (ar aq : Nat) (s : S) (b : Base c ar aq s) (hrun : 
   · intro _ _; exact hlc
   · intro _ _ hh _; left; exact h24 hh
   · intro _ _ _; rfl
-  · intro _ _; exact ⟨hpt, fun hh => by simp [hur] at hh, fun hh => by simp [hurr] at hh⟩
+  · intro _ _; exact ⟨hpt, fun hh => by simp [hur] at hh, fun hh => by simp [hurr] at hh, rfl⟩
   · intro _ _ hh; simp [hurr] at hh
   · intro _ hh; simp at hh
   · intro _ _ _; simp
